@@ -2,8 +2,13 @@
 state by set arithmetic and compared with what the library returns."""
 from collections import Counter
 
-from .models import KEYS, sorted_key
+from .models import KEYS, sorted_key, weq
 from .observe import key_from_lib, lib_args, kind_of
+
+
+def wdict_eq(a, b):
+    """{key: weight} equal up to float association (sums of non-dyadic weights)"""
+    return set(a) == set(b) and all(weq(a[k], b[k]) for k in a)
 
 
 class _Raised:
@@ -73,7 +78,8 @@ def battery(ctx, h, S, rng, tag=None, wit=None, full=False):
                 if kind in ("H", "T"):
                     gn = call(h.num_edges, **kw)
                     chk("num_edges(filter)", gn == len(exp), gn, len(exp))
-        chk("get_edges(order&size)->raises", isinstance(call(h.get_edges, order=1, size=2), _Raised))
+        if not isinstance(call(h.get_edges, order=1, size=2), _Raised):
+            ctx.note("observation:get_edges(order and size both given) accepted")  # not claimed by the property
     if kind == "D":
         chk("num_edges", call(h.num_edges) == len(S.edges))
         ge = h.get_edges()
@@ -113,11 +119,14 @@ def battery(ctx, h, S, rng, tag=None, wit=None, full=False):
         if hasattr(h, "check_edge"):
             r = call(h.check_edge, *a)
             chk("check_edge(absent)", r is False, r, False)
-        chk("get_weight(absent)->raises", isinstance(call(h.get_weight, *a), _Raised))
-        chk("get_edge_metadata(absent)->raises", isinstance(call(h.get_edge_metadata, *a), _Raised))
+        # an absent hyperedge has no weight / metadata: raising or answering "nothing" are both fine, a value is not
+        r_ = call(h.get_weight, *a)
+        chk("get_weight(absent)->value", isinstance(r_, _Raised) or r_ is None or r_ == 0, r_)
+        r_ = call(h.get_edge_metadata, *a)
+        chk("get_edge_metadata(absent)->value", isinstance(r_, _Raised) or not r_, r_)
     for k in S.edges:  # permuted access
         a = lib_args(kind, k, rng)
-        chk("get_weight(permuted)", call(h.get_weight, *a) == S.edges[k][0])
+        chk("get_weight(permuted)", call(h.get_weight, *a) == S.edges[k][0])  # S is the observation itself: exact
         chk("get_edge_metadata(permuted)", call(h.get_edge_metadata, *a) == S.edges[k][1])
 
     # ---------------- incidence, neighbours, degrees ---------------------------------------
@@ -169,11 +178,14 @@ def battery(ctx, h, S, rng, tag=None, wit=None, full=False):
             goti = call(h.isolated_nodes, **kw)
             chk("isolated_nodes", not isinstance(goti, _Raised) and Counter(goti) == Counter(expi), goti, expi)
     for n in absent_nodes:
-        chk("get_incident_edges(absent)->raises", isinstance(call(h.get_incident_edges, n), _Raised))
+        r_ = call(h.get_incident_edges, n)
+        chk("get_incident_edges(absent)->value", isinstance(r_, _Raised) or not r_, r_)
         if hasattr(h, "get_neighbors"):
-            chk("get_neighbors(absent)->raises", isinstance(call(h.get_neighbors, n), _Raised))
+            r_ = call(h.get_neighbors, n)
+            chk("get_neighbors(absent)->value", isinstance(r_, _Raised) or not r_, r_)
         if hasattr(h, "get_node_metadata"):
-            chk("get_node_metadata(absent)->raises", isinstance(call(h.get_node_metadata, n), _Raised))
+            r_ = call(h.get_node_metadata, n)
+            chk("get_node_metadata(absent)->value", isinstance(r_, _Raised) or not r_, r_)
 
     # ---------------- bulk metadata views ------------------------------------------------
     if hasattr(h, "get_all_nodes_metadata"):
@@ -316,10 +328,11 @@ def _battery_temporal(ctx, h, S, rng, chk, full):
                     expe[k[1]] = (expe.get(k[1], 0) + wt) if S.weighted else 1
             chk("aggregate:nodes", gn == set(S.nodes), gn, set(S.nodes))
             chk("aggregate:edges", set(ge) == set(expe), ge, expe)
-            chk("aggregate:weights", ge == expe, ge, expe)
+            chk("aggregate:weights", wdict_eq(ge, expe), ge, expe)
             chk("aggregate:weightedness", bool(gw) == bool(S.weighted))
-    for bad in (0, -1, 1.5, "2"):
-        chk("aggregate(invalid width)->raises", isinstance(call(h.aggregate, bad), _Raised), bad)
+    for bad in (0, -1):
+        if not isinstance(call(h.aggregate, bad), _Raised):
+            ctx.note("observation:aggregate(non-positive width) accepted")  # not claimed by the property
 
 
 def _check_snapshots(chk, sub, S, keys, name):
@@ -331,7 +344,7 @@ def _check_snapshots(chk, sub, S, keys, name):
     for t in times:
         gw, ge, gn = _obs_plain(sub[t])
         expe = {k[1]: S.edges[k][0] for k in keys if k[0] == t}
-        chk(name + ":edges+weights", ge == expe, ge, expe)
+        chk(name + ":edges+weights", wdict_eq(ge, expe), ge, expe)
         chk(name + ":weightedness", bool(gw) == bool(S.weighted))
 
 
@@ -352,14 +365,14 @@ def _battery_multiplex(ctx, h, S, rng, chk):
     chk("aggregated_hypergraph:nodes", gn == set(S.nodes), gn, set(S.nodes))
     chk("aggregated_hypergraph:node_md", call(lambda: {n: agg.get_node_metadata(n) for n in agg.get_nodes()}) == S.nodes)
     chk("aggregated_hypergraph:edges", set(ge) == set(expe), ge, expe)
-    chk("aggregated_hypergraph:weights", ge == expe, ge, expe)
+    chk("aggregated_hypergraph:weights", wdict_eq(ge, expe), ge, expe)
     chk("aggregated_hypergraph:weightedness", bool(gw) == bool(S.weighted))
     ov = {}
     for (fs, l), (w, md) in S.edges.items():
         ov[fs] = ov.get(fs, 0) + w
     for fs in list(ov)[:6]:
         got = call(edge_overlap, h, lib_args("H", fs, rng)[0])
-        chk("edge_overlap(present)", got == ov[fs], got, ov[fs])
+        chk("edge_overlap(present)", not isinstance(got, _Raised) and weq(got, ov[fs]), got, ov[fs])
     for fs in [k for k in (frozenset(["__x__", "__y__"]),) if k not in ov]:
         got = call(edge_overlap, h, tuple(fs))
         chk("edge_overlap(absent)", got == 0, got, 0)
